@@ -124,3 +124,14 @@ def bufferedStream (step : List Nat → List Nat → List Nat × List Nat) :
     ({ t with text := r.1 } :: rest.1, rest.2)
 
 end TantivyModel.Tok
+
+namespace TantivyModel.Tok
+
+/-- FacetTokenizer on an analyzer whose token text was left at `left` by an earlier (possibly
+abandoned) stream: `self.token.reset()` clears the text the tokenizer appends to -/
+def facetStream (resets : Nat) (sep : Nat) (fs : List Filter) (left : List Nat) (s : Text) :
+    List Token :=
+  (facetChainAux fs (if resets = 0 then left else []) (facetPieces sep s)).map
+    (fun t => ⟨0, 0, 0, t⟩)
+
+end TantivyModel.Tok
